@@ -124,6 +124,7 @@ package l1infotreesync
 //@   ensures[all-or-nothing] (!old(p.halted) && lastTx != old(lastTx)) ==> ((result == nil ==> txState(lastTx) == 1) && (result != nil ==> txState(lastTx) == 2))
 //@   ensures[no-transaction-no-success] (!old(p.halted) && lastTx == old(lastTx)) ==> result != nil
 //@   ensures[halts-only-with-inconsistency-error] p.halted != old(p.halted) ==> p.halted && result == sync.ErrInconsistentState
+//@   ensures[inconsistency-report-means-halted] result == sync.ErrInconsistentState ==> p.halted
 //@   ensures[committed-only-if-every-statement-succeeded] result == nil ==> stmtFail == old(stmtFail)
 //@   ensures[leaf-indices-continue-the-stored-sequence] (result == nil && leafCalls != old(leafCalls)) ==> lastLeafIdx == (l1LastIndex + (leafCalls - old(leafCalls))) % 4294967296 || lastLeafIdx == (leafCalls - old(leafCalls) - 1) % 4294967296
 //@   loop 0 invariant p.halted == old(p.halted) && !p.halted && p.log == old(p.log) && p.log != nil && p.l1InfoTree == old(p.l1InfoTree) && p.l1InfoTree != nil && p.l1InfoTree.Tree != nil && len(p.l1InfoTree.zeroHashes) == 33 && p.rollupExitTree == old(p.rollupExitTree) && p.rollupExitTree != nil && p.rollupExitTree.Tree != nil && len(p.rollupExitTree.zeroHashes) == 33 && p.l1InfoTree.Tree != p.rollupExitTree.Tree
